@@ -9,7 +9,7 @@ import ast
 
 from ..engine.program import AnalysisError, dotted, src, walk_no_nested, call_name
 from ..engine import setorder
-from . import c10
+from . import c10, c15
 
 DSP = "src/dataset_processor.py"
 
@@ -162,6 +162,15 @@ def run(prog, ctx):
     o1(prog, ctx)
     o2(prog, ctx)
     c10.s1_class_state(prog, ctx, tag="O3")
+    ctx.rule("O4", "objects handed from pool workers to the parent are pickled: every class with a hand-written __getstate__/__setstate__ "
+                   "pair restores each state position into the field it was taken from (otherwise --threads N > 1 yields other "
+                   "objects than the in-process path of --threads 1); same analysis as C15/Z1 pickle state")
+    n4 = c15.z1_pickle_state(prog, ctx, tag="O4")
+    others = [q for m, q, f in prog.all_functions() if q.endswith(".__getstate__") or q.endswith(".__reduce__") or q.endswith(".__reduce_ex__")]
+    if [q for q in others if q != "BasicReadAssignment.__getstate__"]:
+        ctx.fail("O4", prog.func(*[(m.rel, q) for m, q, f in prog.all_functions() if q in others and q != "BasicReadAssignment.__getstate__"][0]),
+                 others[0], "custom pickling", "a class with custom pickling that the O4 analysis does not cover: %s" % others)
+    ctx.floor("O4", "pickle state positions", n4, 10)
     ctx.assume("byte-identity as such, float summation order and the behaviour of gffutils / pysam are not decided")
     ctx.assume("inside the is_unique() branch a read has exactly one feature (assignment-type invariant)")
     ctx.assume("attribute flow is tracked by attribute NAME (no type resolution): same-named attributes of different classes share taint")
